@@ -9,6 +9,9 @@ EXTENDS Integers, Sequences, FiniteSets, TLC
 Entries == {"compile", "assemble", "disassemble", "deserialise", "brun", "run", "cldb", "preprocess", "deps", "usecheck", "repl"}
 Outcomes == {"ok", "err"}
 Forbidden == {"panic", "abort", "timeout", "garbled"}
+\* "slow": the observer gave up on a call that was still running without any evidence of a loop (a valid program whose
+\* inline expansion is exponential by design): inconclusive, neither an outcome nor forbidden
+Inconclusive == {"slow"}
 VARIABLES pending, log
 Init == pending = <<>> /\ log = <<>>
 Call(e) == pending = <<>> /\ pending' = <<e>> /\ UNCHANGED log
